@@ -425,14 +425,28 @@ The bounds oracle (`Lin.boundsOf` encloses `Sem.eval` on the box) is NOT a hypot
 section StageCE
 variable [FloorRing K]
 
-/-- **The requirement-indexed specification of `Exp::linearize`** on the piecewise-linear fragment:
-requirement flips through `-`, negative scales and divisions; sign-known `abs` shortcuts; one-sided `abs` rows;
-the exact big-M pair with selector; dominated-operand pruning; single retained operand; one-sided `min`/`max`
-rows; selector rows with `Σ sel = 1`. -/
-theorem linExp_spec {Src : Constraint (Ext K) → Prop} (e : Exp (Ext K)) (he : frag true e = true)
+/-- **The requirement-indexed specification of `Exp::linearize`, for EVERY expression** (Stages B, C and the
+value part of D): requirement flips through `-`, negative scales and divisions; sign-known `abs` shortcuts;
+one-sided `abs` rows; the exact big-M pair with selector; dominated-operand pruning; single retained operand;
+one-sided `min`/`max` rows; selector rows with `Σ sel = 1`; `not e = 1 − e`; the reified `and`/`or` (n-ary),
+`implies`, `iff`, `xor` with binary operands (`is_binary_context`).  The contract `Pre`: the state invariant
+holds, the variables of `e` are declared and used, `e` is defined at every assignment. -/
+theorem linExp_spec {Src : Constraint (Ext K) → Prop} (e : Exp (Ext K))
     (req : Req) (s : St (Ext K)) (c : Ctx (Ext K)) (s' : St (Ext K))
     (hpre : Pre Src e s) (h : linExp e req s = .ok (c, s')) : Spec Src e req s c s' :=
-  lin_spec_pl e he req s c s' hpre h
+  lin_spec_all e req s c s' hpre h
+
+/-- consequence, spelled out: a context returned for a logic connective is 0/1-valued and equal to the truth
+value, at every assignment satisfying the new domains and queue (`compiled_logic_binary` of DESIGN.md, appendix A:
+on compiled models truthiness and "equals 1" coincide). -/
+theorem linExp_and_value {Src : Constraint (Ext K) → Prop} (es : List (Exp (Ext K)))
+    (req : Req) (s : St (Ext K)) (c : Ctx (Ext K)) (s' : St (Ext K))
+    (hpre : Pre Src (.and es) s) (h : linExp (.and es) req s = .ok (c, s'))
+    (ρ : String → K) (hd : DomSat ρ s'.domain) (hq : QSat ρ s') (vs : List K) (hvs : Sem.evalList ρ es = some vs) :
+    ctxVal ρ c = Sem.ofBool (vs.all Sem.truthy) := by
+  have h' : linExp (.and es) .exact s = .ok (c, s') := by rw [linExp] at h ⊢; exact h
+  have hm : eval ρ (.and es) = some (Sem.ofBool (vs.all Sem.truthy)) := by rw [eval]; simp [hvs]
+  exact (lin_spec_all (Src := Src) (.and es) .exact s c s' hpre h').sound ρ hd hq _ hm
 
 /-- the loop: it empties the queue, and — up to fresh auxiliaries — keeps exactly the solutions. -/
 theorem drain_sound_complete {d0 : List (DomVar (Ext K))} (n : Nat) (s : St (Ext K)) (r : Unit × St (Ext K))
@@ -469,6 +483,13 @@ example : ∃ (m : Model (Ext K)) (b : BoundsMap (Ext K)) (d : List (DomVar (Ext
     exact ⟨(haff.cons c hc).notAssert, FG_of_AG (haff.cons c hc).lhs, FG_of_AG (haff.cons c hc).rhs, hdef c hc⟩
   · intro ρ _ n bd hl; simp [lookupB] at hl
 
+/-- non-vacuity with a REAL auxiliary: `min y s.t. c: abs{x} ≤ y`, `x ∈ [-1, 2]`, bounds map `x ∈ [-1, 2]` compiles
+(declaring `$abs_0` and processing its two rows) and satisfies every hypothesis of `c01_partial`. -/
+example : ∃ (m : Model (Ext K)) (b : BoundsMap (Ext K)) (d : List (DomVar (Ext K))) (lm : LinModel (Ext K)),
+    linearizeWith m b d = .ok lm ∧ FragModel true m d ∧ DomRel m d ∧ BoxEnforced b d := by
+  obtain ⟨lm, h⟩ := exAbs_ok (K := K)
+  exact ⟨exAbs, exAbsBounds, exAbs.domain, lm, h, exAbs_hyps.1, exAbs_hyps.2.1, exAbs_hyps.2.2⟩
+
 /-- **Counterexample for the excluded region** (`BoxEnforced` dropped): `max x s.t. c: max{x, 1/2} ≤ 1/2`,
 `x` Boolean, with the bounds map `x ∈ [0, 1/2]` (a tightened Boolean range, as the bounds analysis produced
 before fix 5ec6390): the operand `x` is pruned, the model compiles to the single row `0 ≤ 0`, and `x = 1` is
@@ -480,6 +501,20 @@ theorem c01_counterexample :
       ¬ (srcFeasible m ρ = true ↔
           ∃ ρ' : String → K, (∀ x, inScope d x → ρ' x = ρ x) ∧ linFeasible lm ρ' = true) :=
   boxEnforced_needed (k := (1 / 2 : K)) (by norm_num) (by norm_num)
+
+/-- **Counterexample for the definedness hypothesis** (`FragModel.cons … .defined`): `c: 0 * (x / 0) ≤ 1` is
+undefined at every assignment (the source is infeasible), but `simplify` folds it to the tautology `0 ≤ 1`,
+which is dropped: the linear model accepts every assignment.  All structural hypotheses hold. -/
+theorem c01_defined_counterexample :
+    ∃ (m : Model (Ext K)) (b : BoundsMap (Ext K)) (d : List (DomVar (Ext K))) (lm : LinModel (Ext K)),
+      linearizeWith m b d = .ok lm ∧ DomRel m d ∧ BoxEnforced b d ∧
+      (∀ c ∈ m.constraints, c.isAssert = false ∧ FG true (inScope d) c.lhs ∧ FG true (inScope d) c.rhs) ∧
+      (∀ ρ : String → K, ¬ srcFeasible m ρ = true) ∧ (∀ ρ : String → K, linFeasible lm ρ = true) :=
+  defined_needed
+
+/-- a decidable sufficient condition for the definedness hypothesis: finite literals, non-zero literal divisors,
+non-empty `min`/`max`. -/
+theorem definedE_check (e : Exp (Ext K)) (h : wellDef e = true) : DefinedE e := definedE_of_wellDef e h
 
 /-- `BoxEnforced` from a per-entry check. -/
 theorem boxEnforced_check {b : BoundsMap (Ext K)} {d : List (DomVar (Ext K))}
